@@ -35,8 +35,8 @@ LEVEL_NOTE = ('Trusted: Lean kernel; axioms propext, Classical.choice, Quot.soun
 WORK = os.path.join(os.path.dirname(os.path.dirname(os.path.dirname(os.path.abspath(__file__)))), 'work')
 NAMES = ['Package', 'Version', 'Depends', 'X-Foo', 'a', 'B2', 'Build-Depends-Indep', 'x-', 'From', 'Description', 'homepage', 'SHA256', 'Files', 'License', 'Maintainer', 'q9-9', 'X-Licence', 'Licence-Text', 'Sublicence', 'Licences']
 ODD_NAMES = ['X_Foo', '2a', 'a.b', 'x+y', 'Foo!', '~t']
-VALUES = ['foo', '1.0-1', 'a: b', 'http://x:80/y?z', '.dot', 'From me', 'é ü 日本', 'x  y', '', '', '(>= 1.0), b | c', ':', 'a:b:c', '"quoted"', '-', 'p\x0cq', 'Jos\xe9 Garc\xeda\xa0', '\u3000misc', '\x1fx\u2003']
-CONTS = [' cont', '\tcont', '  two  spaces', ' .', ' ..', ' ---', ' a: b', ' From x', '\t \t.', ' é', ' (', ' "']
+VALUES = ['foo', '1.0-1', 'a: b', 'http://x:80/y?z', '.dot', 'From me', 'é ü 日本', 'x  y', '', '', '(>= 1.0), b | c', ':', 'a:b:c', '"quoted"', '-', 'p\x0cq', 'Jos\xe9 Garc\xeda\xa0', '\u3000misc', '\x1fx\u2003', '#hash', '# not a comment']
+CONTS = [' cont', '\tcont', '  two  spaces', ' .', ' ..', ' ---', ' a: b', ' From x', '\t \t.', ' é', ' (', ' "', ' #!/bin/sh', ' # configure first', '\t#x', '  #']
 SEPS = [[], [], [''], ['', ''], [' '], ['', ' \t', ''], ['\t'], ['', '', '']]
 
 
